@@ -457,6 +457,9 @@ VARIANTS = [
     V( 'hpace-no-reread-clock', HFILES, "if ts is not None and ts > adv:\n cur = self.advance()\n adv = cur + ( lookahead or 0.0 )\n if ts > adv:", "if ts is not None and ts > adv:\n                    if ts > adv:", fires=[ 'H-PACE' ] ),
     V( 'hload-accept-spelled-as-not-before', HFILES, "inorder = self._ts is None or ts >= self._ts", "inorder		= not ( self._ts is not None and ts < self._ts )", silent=[ 'H-LOAD' ] ),
     V( 'hload-release-spelled-other-way', HFILES, "if self._seen and ( self._ts is None or ts > self._ts ):", "if self._seen and ( self._ts is None or self._ts < ts ):", silent=[ 'H-LOAD' ] ),
+    V( 'hload-open-states-spelled-with-or', HFILES, "if self.state in (self.INITIAL, self.SWITCHING ):", "if self.state == self.INITIAL or self.state == self.SWITCHING:", silent=[ 'H-LOAD' ] ),
+    V( 'hload-open-also-awaiting', HFILES, "if self.state in (self.INITIAL, self.SWITCHING ):", "if self.state in (self.INITIAL, self.SWITCHING, self.AWAITING):", fires=[ 'H-LOAD' ] ),
+    V( 'hload-after-spelled-positively', HFILES, "after = ( self.state != self.INITIAL )", "after	= ( self.state in ( self.SWITCHING, self.STREAMING, self.AWAITING, self.EXHAUSTED, self.COMPLETE, self.FAILED ))", silent=[ 'H-LOAD' ] ),
     V( 'hload-accept-strictly-greater', HFILES, "inorder = self._ts is None or ts >= self._ts", "inorder		= self._ts is None or ts > self._ts", fires=[ 'H-LOAD' ] ),
     V( 'hload-drain-with-lookahead', HFILES, "while len( self.future ) and self.future[0][0] <= cur:", "while len( self.future ) and self.future[0][0] <= cur + ( self.lookahead or 0.0 ):", fires=[ 'H-LOAD' ] ),
     V( 'hload-pop-newest', HFILES, "ts,regs = self.future.popleft()", "ts,regs		= self.future.pop()", fires=[ 'H-LOAD' ] ),
